@@ -104,7 +104,7 @@ func c02Run(c *Ctx) {
 	}
 	// 4. random doubles under every arithmetic / comparison operator
 	r := c.Rand("doubles")
-	n := c.N(40000, 1500000)
+	n := c.N(40000, 8000000)
 	arith := []string{"+", "-", "*", "/", "%", "**", "<", "<=", ">", ">=", "==", "!="}
 	for k := 0; k < n; k++ {
 		x, y := RandDouble(r), RandDouble(r)
@@ -118,7 +118,7 @@ func c02Run(c *Ctx) {
 	}
 	// 5. random integers under bitwise operators
 	r = c.Rand("ints")
-	n = c.N(15000, 500000)
+	n = c.N(15000, 3000000)
 	bit := []string{"&", "|", "^", "<<", ">>"}
 	for k := 0; k < n; k++ {
 		x := randInt53(r)
@@ -139,7 +139,7 @@ func c02Run(c *Ctx) {
 	}
 	// 6. random nested expressions
 	r = c.Rand("nested")
-	n = c.N(10000, 300000)
+	n = c.N(10000, 2000000)
 	for k := 0; k < n; k++ {
 		e := randExpr(r, 4)
 		if !c.Mine() {
@@ -160,7 +160,7 @@ func c02Run(c *Ctx) {
 	}
 	// 8. a sample of the matrix through the real binary
 	r = c.Rand("cli")
-	n = c.N(1500, 20000)
+	n = c.N(1500, 40000)
 	for k := 0; k < n; k++ {
 		a, b := pool[r.Intn(len(pool))], pool[r.Intn(len(pool))]
 		op := c02BinOps[r.Intn(len(c02BinOps))]
